@@ -287,7 +287,7 @@ class UnitChecker:
         return self.of(x)
 
     def u_full_like(self, t, x, v):
-        return self.of(v)
+        return self.of(v, True)   # a tensor filled with zero fits any unit (zeros_like), any other constant is a pure number
 
     def u_new_tensor(self, t, x, v):
         return self.of(v)
